@@ -3,7 +3,7 @@ From EDS Require Import Model.Objects Model.Fitness Model.PodSpec Model.Setting 
 
 Inductive case :=
 | W (c : World.case)
-| St (inst : option setting) (all : list setting) (nodes : list node)
+| St (inst : option setting) (all : list setting) (nodes : list node) (fail_settings fail_nodes : bool)
      (post_status : name) (post_error_set : bool) (err panic : bool)   (* one reconcile of [inst] *)
 | Fin (all : list setting) (nodes : list node).                          (* after every setting was reconciled *)
 
@@ -22,12 +22,16 @@ Definition chk (c : case) : list N :=
                                                              (sn_settings sn)
                                   end) (ob_creates obs)) 15
   | W (CEds sn obs) => code_if (step_ok_eds sn obs) 1
-  | St None _ _ _ _ err panic => code_if (negb panic && negb err) 1
-  | St (Some inst) all nodes st es err panic =>
-      let '(mst, mes) := setting_sync inst all nodes in
+  | St None _ _ _ _ _ _ err panic => code_if (negb panic && negb err) 1
+  | St (Some inst) all nodes fs fn st es err panic =>
+      let '(mst, mes) := setting_sync inst all nodes fs fn in
       code_if (negb panic && N.eqb mst st && Bool.eqb mes es) 1 ++
       code_if (has_reference inst || N.eqb st SET_ERROR) 11 ++
-      code_if (strict_selector_ok (s_selector inst) || N.eqb st SET_ERROR) 12
+      code_if (fs || strict_selector_ok (s_selector inst) || N.eqb st SET_ERROR) 12 ++
+      (* a reconcile that could not compare the setting with the others never turns it valid: a setting that was not
+         valid before is valid afterwards only if the lists were read and it is valid by the rule *)
+      code_if (valid_now inst || negb (N.eqb st SET_VALID) ||
+               (negb fs && negb fn && setting_valid inst (settings_of_ns (s_ns inst) all) nodes)) 14
   | Fin all nodes =>
       (* after each was reconciled against the same cluster state: overlapping settings are not both valid *)
       code_if (forallb (fun s1 => forallb (fun s2 =>
